@@ -1,0 +1,46 @@
+//go:build verif
+
+/*
+ * Licensed to the Apache Software Foundation (ASF) under one or more
+ * contributor license agreements.  See the NOTICE file distributed with
+ * this work for additional information regarding copyright ownership.
+ * The ASF licenses this file to You under the Apache License, Version 2.0
+ * (the "License"); you may not use this file except in compliance with
+ * the License.  You may obtain a copy of the License at
+ *
+ *     http://www.apache.org/licenses/LICENSE-2.0
+ *
+ * Unless required by applicable law or agreed to in writing, software
+ * distributed under the License is distributed on an "AS IS" BASIS,
+ * WITHOUT WARRANTIES OR CONDITIONS OF ANY KIND, either express or implied.
+ * See the License for the specific language governing permissions and
+ * limitations under the License.
+ */
+
+package getty
+
+// VerifSetIDGenerators sets the request-id counter of the remoting client and
+// the heartbeat-id counter of the listener (the next id is counter+1), so that
+// a history can start at a chosen point of the id space (e.g. just before the
+// int32 wrap). Verification builds only.
+func VerifSetIDGenerators(client, heartbeat uint32) {
+	GetGettyRemotingClient().idGenerator.Store(client)
+	GetGettyClientHandlerInstance().idGenerator.Store(heartbeat)
+}
+
+// VerifPendingIDs lists the ids that own an entry of the pending-future table.
+func VerifPendingIDs() []int32 {
+	var ids []int32
+	GetGettyRemotingClient().gettyRemoting.futures.Range(func(k, _ interface{}) bool {
+		ids = append(ids, k.(int32))
+		return true
+	})
+	return ids
+}
+
+// VerifClearPending empties both tables (used between independent histories).
+func VerifClearPending() {
+	r := GetGettyRemotingClient().gettyRemoting
+	r.futures.Range(func(k, _ interface{}) bool { r.futures.Delete(k); return true })
+	r.mergeMsgMap.Range(func(k, _ interface{}) bool { r.mergeMsgMap.Delete(k); return true })
+}
